@@ -46,6 +46,16 @@ def ordered(f, chain):
     return None
 
 
+def R_enum(prog, prefix):
+    """enumerator name -> value for enumerators whose qualified name starts with prefix"""
+    vals = {}
+    for f in prog.functions.values():
+        for n in f.nodes:
+            if n["k"] == "DeclRefExpr" and n["ref"].get("dk") == "enumconst" and n["ref"].get("q", "").startswith(prefix):
+                vals[n["ref"]["q"].split("::")[-1]] = n["ref"]["v"]
+    return vals
+
+
 def run(prog, chk):
     chk.extra["explanation"] = EXPLANATION
     chk.rule("C10.a", "ORD/CNT: publication order in proc / set / result conversion / destructor / startProc / join", floor=10)
@@ -95,8 +105,18 @@ def run(prog, chk):
         chk.ok("C10.a", f, "set(): state published before the signal", "%s:%s" % (f.file, f.line), "reachability", evals=2)
     # the published state distinguishes aborted / finished by _aborting
     stv = q.no_casts(f.r(pub[0])) if pub else ""
-    if re.search(r"this->_aborting \? .*abortedState.* : .*finishedState", stv) or re.search(r"this->_aborting \? 3 : 2", stv):
-        chk.ok("C10.a", f, "state = _aborting ? aborted : finished", f.where(pub[0]), stv[:80], nontrivial=False)
+    # decision table: the value published into _state for _aborting = 0 / 1 (whatever the selection is spelled like)
+    ev_ = R_enum(prog, "Future<void>::")
+    want = {0: ev_.get("finishedState"), 1: ev_.get("abortedState")}
+    got = {}
+    for av in (0, 1):
+        _seen, _end, fv = fin.walk_vals(f, f.entry, {"this->_aborting": av})
+        if pub and f.nodes[pub[0]]["k"] == "CallExpr":
+            got[av] = fin.eval_expr(f, q.call_args(f, pub[0])[1], dict(fv, **{"this->_aborting": av}))
+        elif pub:
+            got[av] = fin.eval_expr(f, f.nodes[pub[0]]["c"][1], dict(fv, **{"this->_aborting": av}))
+    if pub and None not in want.values() and got == want:
+        chk.ok("C10.a", f, "state = _aborting ? aborted : finished", f.where(pub[0]), "published values %s" % got, evals=2)
     else:
         chk.bad("C10.a", f, "set-state-selection", "%s:%s" % (f.file, f.line), "set() must publish abortedState iff an abort was requested, finishedState otherwise; it publishes `%s`" % stv[:80])
     for f in fn1(prog, lambda f: f.kind == "conv" and re.match(r"^Future<.*>::operator const", f.tname or "") is not None, "Future<A>::operator const A&"):
@@ -221,7 +241,11 @@ def run(prog, chk):
             err = ordered(f, [("the CAS that claims the slot", cas), ("the slot payload access", body), ("the hand-off Atomic::swap(node->%s)" % publish, swp)])
             # ticket check before the CAS: `node->tail != tail` / `node->head != head` returns false
             own = "tail" if opn == "push" else "head"
-            tick = [b for b in f.blocks.values() if b.get("cond") is not None and re.search(r"\(node->%s != %s\)" % (own, own), f.r(b["cond"]))]
+            # the ticket variable is whatever the CAS expects as the old value of the ring index
+            exp = set(q.no_casts(f.r(q.call_args(f, c_)[1])) for c_ in cas if len(q.call_args(f, c_)) >= 2)
+            tick = [b for b in f.blocks.values() if b.get("cond") is not None and
+                    any(re.fullmatch(r"\(\w+->%s != %s\)" % (own, re.escape(x)), q.no_casts(f.r(b["cond"]))) or
+                        re.fullmatch(r"\(%s != \w+->%s\)" % (re.escape(x), own), q.no_casts(f.r(b["cond"]))) for x in exp)]
             if not err and (not tick or not all(f.dominates_pos((t["id"], 0), f.node_pos(c)) for t in tick for c in cas)):
                 err = "the slot ticket (node->%s) is not checked before the CAS" % own
             if not err:
